@@ -340,3 +340,12 @@ func errLine(err error) string {
 	}
 	return "\n(lib: " + s + ")"
 }
+
+// fieldSizeKey: finding key for "the field-size condition was not enforced". The identifier 2^64-1 gets its own key:
+// the library computes the bound with uint64(maxID)+1, which wraps to 0 for that identifier.
+func fieldSizeKey(ids []sharing.ID) string {
+	if slices.Max(ids) == ^sharing.ID(0) {
+		return "refusal/hierarchical-field-size/id=2^64-1"
+	}
+	return "refusal/hierarchical-field-size"
+}
